@@ -528,6 +528,22 @@ pub fn gen_decimal_tee(rng: &mut Rng) -> PairCase {
 
 /// exactly parallel segments a tiny distance apart with overlapping bounding boxes (disjoint, but any absolute
 /// tolerance in the collinearity test would call them overlapping); all coordinates dyadic so that the shift is exact
+/// exactly parallel, disjoint integer segments far from the origin (|coordinate| x length beyond 2^54): a collinearity
+/// test evaluated on absolute coordinates instead of differences cancels the small true offset
+pub fn gen_far_parallel_pair(rng: &mut Rng) -> PairCase {
+    let sgn = |rng: &mut Rng| if rng.below(2) == 0 { 1.0 } else { -1.0 };
+    let (bx, by) = (sgn(rng) * (2.0f64).powi(rng.range(40, 51) as i32), sgn(rng) * (2.0f64).powi(rng.range(40, 51) as i32));
+    let d = (rng.range(1, 3000) as f64, rng.range(-40, 40) as f64);
+    let a = (bx + rng.range(-50, 50) as f64, by + rng.range(-50, 50) as f64);
+    let s1 = (a, (a.0 + d.0, a.1 + d.1));
+    let off = (0.0, [1.0, 2.0, -1.0, 3.0][rng.below(4) as usize]);
+    let (t1, t2) = (rng.range(-1, 0) as f64, rng.range(-1, 1) as f64);
+    // second segment: same direction, shifted vertically by a few units and slid along by whole multiples of d
+    let s2 = ((a.0 + t1 * d.0 + off.0, a.1 + t1 * d.1 + off.1), (a.0 + (t2 + 2.0) * d.0 + off.0, a.1 + (t2 + 2.0) * d.1 + off.1));
+    let subj1 = rng.below(2) == 0;
+    PairCase { s1, s2, subj1, subj2: !subj1, in_out1: rng.below(2) == 0, in_out2: rng.below(2) == 0, f32_run: false }
+}
+
 pub fn gen_parallel_pair(rng: &mut Rng) -> PairCase {
     let q = 1.0 / (1u64 << 20) as f64;
     let scale = [1.0, 1024.0, 1.0 / 1024.0][rng.below(3) as usize];
